@@ -14,6 +14,11 @@ var vDirected bool
 
 func HarnessDrainQuiescent() {
 	vT2(vParam("preemptions", 1), vParam("firings", 10))
+	vWatchPauseEvents()
+	if !vDirected && vParam("policies", 2) == 2 {
+		// both default scheduling policies (earliest-started first / latest-started first) are explored
+		vSchedPolicy(vChoose("sched_policy", 2))
+	}
 	vSortMode = 0
 	C := vParam("clients", 1)
 	router := NewRouter("/state")
@@ -26,6 +31,9 @@ func HarnessDrainQuiescent() {
 	svc, _ := vInstallOldService(router, topts)
 	_ = svc
 	cmd := vChoose("command", 3) // 0 redeploy, 1 pause, 2 stop
+	if fc := vParam("only_command", -1); fc >= 0 {
+		vAssume(cmd == fc)
+	}
 	if vDirected {
 		vHoldAfterLookup = cmd == 0
 		vHoldAfterGate = cmd != 0
@@ -37,10 +45,29 @@ func HarnessDrainQuiescent() {
 	}
 	root := vRootChain(router)
 	done := 0
+	spawnClients := []func(){}
 	clientsParked := 0
 	clientFirst := vDirected && vChoose("client_first", 2) == 1
+	// holder scenario: request 0 is in flight on the old target, never finishing, before anything else happens, so the
+	// drain has something to wait for while the other requests race with it
+	holder := !vDirected && vParam("holder", 0) == 1
+	if C > 1 {
+		// Drain ranges four times over its copy of the in-flight map; the order among several entries only permutes
+		// cancellations issued at one virtual instant, so one order is explored
+		vFixMapOrderType("inflightMap")
+	}
 	for c := 0; c < C; c++ {
 		c := c
+		if holder && c == 0 {
+			vProxyPlans[0] = &vProxyPlan{never: true}
+			go func() {
+				vDaemon()
+				vDoRequest(root, 0, "h", "/")
+				done++
+			}()
+			vBlockUntil(func() bool { return vIndexOf("forward_begin", 0) >= 0 })
+			continue
+		}
 		arrival := vIntRange("arrival"+vItoa(c), 0, vParam("arrival_points", 8))
 		if clientFirst {
 			vAssume(arrival == 0)
@@ -59,41 +86,66 @@ func HarnessDrainQuiescent() {
 			plan.service = vDur("upgrade_after" + vItoa(c))
 		}
 		vProxyPlans[c] = plan
-		go func() {
-			vDaemon() // may stay parked at a never-answering target that is not drained
-			clientsParked++
-			vArriveAfter(arrival)
-			clientsParked--
-			vDoRequest(root, c, "h", "/")
-			done++
-		}()
+		spawnClients = append(spawnClients, func() {
+			go func() {
+				vDaemon() // may stay parked at a never-answering target that is not drained
+				clientsParked++
+				vArriveAfter(arrival)
+				clientsParked--
+				vDoRequest(root, c, "h", "/")
+				done++
+			}()
+		})
+	}
+	commandFirst := !clientFirst && (vDirected || (vParam("orders", 2) == 2 && vChoose("command_started_first", 2) == 1))
+	if !commandFirst {
+		for _, f := range spawnClients {
+			f()
+		}
 	}
 	if clientFirst {
 		// the client reaches its hold point before the command is issued
 		vBlockUntil(func() bool { return vHeld == C })
 	}
-	if !vDirected && vChoose("target_turns_unhealthy", 2) == 1 {
+	if !vDirected && !commandFirst && vChoose("target_turns_unhealthy", 2) == 1 {
 		// the target fails a probe while the request is in flight on it: it leaves the rotation but must still be drained
-		vBlockUntil(func() bool { return vIndexOf("forward_begin", -1) >= 0 || vClientResults[0] != nil || clientsParked > 0 })
+		vBlockUntil(func() bool {
+			return vIndexOf("forward_begin", -1) >= 0 || vClientResults[0] != nil || clientsParked > 0
+		})
 		if vIndexOf("forward_begin", -1) >= 0 {
 			svc.active.all[0].HealthCheckCompleted(false)
 		}
 	}
+	// the command runs in its own goroutine; whether it or the clients were started first decides whom the
+	// delay-bounded scheduler favours, so both orders are explored
 	begin := vNow()
 	var err error
-	switch cmd {
-	case 0:
-		err = router.DeployService("svc", []string{"new0:80"}, ServiceOptions{Hosts: []string{"h"}}, topts, deployTimeout, drainTimeout)
-	case 1:
-		err = router.PauseService("svc", drainTimeout, 1<<30)
-	case 2:
-		err = router.StopService("svc", drainTimeout, "stopped")
+	var ret int64
+	retIdx := -1
+	cmdDone := false
+	runCmd := func() {
+		switch cmd {
+		case 0:
+			err = router.DeployService("svc", []string{"new0:80"}, ServiceOptions{Hosts: []string{"h"}}, topts, deployTimeout, drainTimeout)
+		case 1:
+			err = router.PauseService("svc", drainTimeout, 1<<30)
+		case 2:
+			err = router.StopService("svc", drainTimeout, "stopped")
+		}
+		ret = vNow()
+		vEmit(vEvent{kind: "cmd_return", ok: err == nil})
+		retIdx = len(vTrace) - 1
+		vCmdReturned = true
+		vRelease = true
+		cmdDone = true
 	}
-	ret := vNow()
-	vEmit(vEvent{kind: "cmd_return", ok: err == nil})
-	vCmdReturned = true
-	vRelease = true
-	retIdx := len(vTrace) - 1
+	go runCmd()
+	if commandFirst {
+		for _, f := range spawnClients {
+			f()
+		}
+	}
+	vBlockUntil(func() bool { return cmdDone })
 	// let the clients finish (a paused request waits for its max-pause; never-ending ones were cancelled by the drain)
 	vBlockUntil(func() bool { return vClientsSettled(C) })
 	vNote(vTraceString())
@@ -122,32 +174,28 @@ func HarnessDrainQuiescent() {
 		stale := false
 		if li := vIndexOf("lookup", e.req); cmd == 0 && li >= 0 {
 			got, _ := vTrace[li].obj.(*Service)
-			stale = got != nil && got != router.services.Get("svc")
+			stale = got != nil && got != router.serviceForName("svc")
 		}
 		pastGate := false
 		if gi := vLastGateLeave(i); cmd != 0 && gi >= 0 {
 			pastGate = drainBeginIdx >= 0 && vGateEnterBefore(gi) < drainBeginIdx && PauseWaitAction(vTrace[gi].status) == PauseWaitActionProceed
 		}
-		if i < retIdx {
-			// (virtual time: a request cancelled by the drain ends at the instant of its cancellation)
-			vAssert(endIdx >= 0 && vTrace[endIdx].at <= ret, "drain: no request is still being served by a drained target when the command returns")
-		} else {
-			// sent to a drained target after the command returned
+		class := ""
+		drainEndIdx := vIndexOf("drain_end", -1)
+		if drainEndIdx >= 0 && i > drainEndIdx {
+			// only a request that reaches the target after its drain completed can belong to these classes: during the
+			// drain StartRequest refuses, and whatever it admitted before is waited for
 			if stale {
-				vAssert(false, "drain: no request is sent to a drained target after the command returned [request that looked up the service before the swap]")
+				class = " [request that looked up the service before the swap]"
 			} else if pastGate {
-				vAssert(false, "drain: no request is sent to a drained target after the command returned [request that passed the pause gate before the pause]")
-			} else {
-				vAssert(false, "drain: no request is sent to a drained target after the command returned")
+				class = " [request that passed the pause gate before the pause]"
 			}
 		}
-		if i < retIdx && drainBeginIdx >= 0 && i > drainBeginIdx {
-			// forwarded to the target while it was being drained
-			if stale || pastGate {
-				vAssert(false, "drain: no request is sent to a target while it is being drained [stale lookup]")
-			} else {
-				vAssert(false, "drain: no request is sent to a target while it is being drained")
-			}
+		if i > retIdx {
+			vAssert(false, "drain: no request is sent to a drained target after the command returned"+class)
+		} else if !(endIdx >= 0 && vTrace[endIdx].at <= ret) {
+			// (virtual time: a request cancelled by the drain ends at the instant of its cancellation)
+			vAssert(false, "drain: no request is still being served by a drained target when the command returns"+class)
 		}
 		// in flight when draining began: runs to completion within the timeout, else cut off with 504; upgraded: closed at once
 		if drainBeginIdx >= 0 && i < drainBeginIdx && (endIdx < 0 || endIdx > drainBeginIdx) {
